@@ -22,7 +22,7 @@ EXPLANATION = (
 ASSUMPTIONS = ["std::atomic<thread_state>::compare_exchange_strong is atomic", "work_items_/new_tasks_/terminated_items_ deliver each pushed element to one pop (C17)",
                "on_start_thread runs on the owning worker before the pool's start-up barrier releases any work (reserve() calls exempt from R6)"]
 THOROUGH_CONFIGS = [["-UNDEBUG", "-DPIKA_DEBUG"], ["-DPIKA_HAVE_THREAD_QUEUE_WAITTIME"]]
-FLOORS = {"C01.R1": 8, "C01.R2": 6, "C01.R3": 8, "C01.R4": 24, "C01.R5": 12, "C01.R6": 10, "C01.R7": 9, "C01.R8": 2, "C01.R9": 1, "C01.R10": 6, "C01.R11": 4, "C01.R12": 20, "C01.R13": 4, "C01.R14": 3}
+FLOORS = {"C01.R1": 8, "C01.R2": 6, "C01.R3": 8, "C01.R4": 24, "C01.R5": 12, "C01.R6": 10, "C01.R7": 9, "C01.R8": 2, "C01.R9": 1, "C01.R10": 6, "C01.R11": 4, "C01.R12": 20, "C01.R13": 4, "C01.R14": 3, "C01.R15": 5, "C01.R16": 6}
 
 TSS = "pika::threads::detail::thread_schedule_state"
 TD = "pika::threads::detail::thread_data"
@@ -218,6 +218,68 @@ def run(rep, tier):
         rep.ok("C01.R2", sss[0], "store_state publishes through restore_state (CAS against the state it set)")
     else:
         rep.bad("C01.R2", sss[0], sss[0].loc, "store-state", "store_state no longer publishes through restore_state")
+    # switch_status in detail (R15)
+    rep.rule("C01.R15", "K7/K8: switch_status hands the worker's claim on: operator= builds the state to publish from the state the body returned, the unchanged state_ex and "
+             "the claimed tag + 1 (a new generation per phase - the retry helper and the publishing compare-exchange tell phases apart by it) and keeps the 'next thread' "
+             "the body handed back; store_state reports exactly the outcome of restore_state (true = published: the loop re-queues; false = lost: it must not) and hands "
+             "the published state out; the destructor publishes only while no explicit store_state happened")
+    from engine.kinds import guarded_returns as _gr, eval_tree as _et, Unknown as _Unk
+    sop = [f for f in F.find(r"^pika::threads::detail::switch_status::operator=$") if f.parent == -1]
+    if len(sop) != 1:
+        raise AnalysisBroken("switch_status::operator= not found")
+    sop = sop[0]
+    ctor = [e for _, _, e in sop.all_events() if e.get("k") == "ctor" and "combined_tagged_state" in str(e.get("rec")) and len(e.get("args") or []) == 3]
+    asg = [e for _, _, e in sop.all_events() if e.get("k") == "call" and e.get("op") == "=" and P(e.get("recv")) == "this->prev_state_"]
+    if len(ctor) != 1 or not asg:
+        raise AnalysisBroken("switch_status::operator=: construction of the state to publish not found")
+    par = sop.params[0]["name"] if sop.params else "new_state"
+    a0, a1, a2 = ctor[0]["args"]
+    okv = True
+    try:
+        okv = _et(a2, {"this->prev_state_.tag()": 41}) == 42
+    except _Unk:
+        okv = False
+    if T(strip(a0)) == par + ".first" and T(strip(a1)) == "this->prev_state_.state_ex()" and okv:
+        rep.ok("C01.R15", sop, "the state to publish is (returned state, state_ex, tag + 1)")
+    else:
+        rep.bad("C01.R15", sop, loc_of(ctor[0]), "publish-state", "switch_status::operator= builds the state to publish as (%s, %s, %s): it must be (returned state, "
+                "prev_state_.state_ex(), prev_state_.tag() + 1) - without a new tag per phase a wake-up that raced with an earlier phase is taken for the current one "
+                "(set_active_state cannot tell that the task was suspended and resumed in between)" % (T(a0), T(a1), T(a2)))
+    nx = [e for _, _, e in sop.all_events() if e.get("k") == "call" and e.get("op") == "=" and P(e.get("recv")) == "this->next_thread_id_" and (par + ".second") in T(e["args"][0])]
+    if nx:
+        rep.ok("C01.R15", sop, "the thread the body handed back as 'next' is kept")
+    else:
+        rep.bad("C01.R15", sop, sop.loc, "next-thread-dropped", "switch_status::operator= drops the 'next thread' reference the body returned: that thread is in no queue and never runs")
+    stf = sss[0]
+    nret = 0
+    for leaf, fb, ev in _gr(stf):
+        v = strip(leaf)
+        if v.get("k") != "lit":
+            raise AnalysisBroken("switch_status::store_state returns a non-literal")
+        won = [t for a, t in fb if "restore_state(" in a]
+        nret += 1
+        if won and v.get("v") == won[0]:
+            rep.ok("C01.R15", stf, "store_state returns %s exactly when restore_state %s" % (v.get("v"), "succeeded" if won[0] else "failed"))
+        else:
+            rep.bad("C01.R15", stf, loc_of(ev), "store-result", "store_state returns %s on a path where restore_state %s: the scheduling loop re-queues a task it lost / drops a "
+                    "task it still owns (a pending task is never queued again)" % (v.get("v"), ("succeeded" if won[0] else "failed") if won else "was not consulted"))
+    if nret < 2:
+        raise AnalysisBroken("switch_status::store_state: returns not found")
+    outw = [e for _, _, e in stf.all_events() if e.get("k") == "call" and e.get("op") == "=" and stf.params and P(e.get("recv")) == stf.params[0]["name"] and T(strip(e["args"][0])) == "this->prev_state_"]
+    if outw:
+        rep.ok("C01.R15", stf, "the published state is handed to the caller")
+    else:
+        rep.bad("C01.R15", stf, stf.loc, "published-state-not-returned", "store_state does not hand the published state to the scheduling loop: the loop dispatches on a stale state")
+    dr = [f for f in F.find(r"^pika::threads::detail::switch_status::disable_restore$") if f.parent == -1]
+    dis_direct = [e for _, _, e in stf.all_events() if e.get("k") == "write" and P(e["lhs"]) == "this->need_restore_state_"]
+    dis_call = [e for _, _, e in stf.all_events() if e.get("k") == "call" and callee_short(e) == "disable_restore"]
+    dvals = [T(strip(e["rhs"])) for e in dis_direct] + [T(strip(e["rhs"])) for f_ in dr for _, _, e in f_.all_events() if e.get("k") == "write" and P(e["lhs"]) == "this->need_restore_state_"]
+    if (dis_direct or (dis_call and dr)) and dvals and all(v == "false" for v in dvals):
+        rep.ok("C01.R15", stf, "an explicit store_state switches the destructor's publication off")
+    else:
+        rep.bad("C01.R15", stf, stf.loc, "restore-not-disabled", "after an explicit store_state the destructor still publishes (need_restore_state_ not cleared): the state is "
+                "published a second time after the loop already re-queued the task")
+
     st = G.find("^" + TD + "::set_state_tagged$")
     if st:
         f = st[0]
@@ -514,6 +576,164 @@ def run(rep, tier):
                         "there are never dequeued - their bodies are never entered" % (m, "only on paths where %s is true" % steal if mine else "nowhere"))
     if n13 < 4:
         raise AnalysisBroken("C01.R13 examined only %d (scheduler, queue member) pairs" % n13)
+
+    # ---- R16: the thread map and its counter move together; a converted task is queued
+    rep.rule("C01.R16", "K3 (pairing on edges): in thread_queue a successful thread_map_.insert is followed by ++thread_map_count_ and a successful thread_map_.erase by "
+             "--thread_map_count_ (and only then) - the counter is what get_thread_count / the idle and shutdown tests read, a drift makes pika::wait() and worker "
+             "exit wait for ever or leave early; add_new queues (schedule_thread) every task it converted and created the thread object before inserting it")
+    from engine.kinds import eval_tree as _et16, Unknown as _U16, derives_from as _df16
+    n16 = 0
+    seen16 = set()
+    for fn in tqs:
+        key16 = fn.qname
+        if key16 in seen16:
+            continue
+        ins = [(b, i, e) for b, i, e in fn.all_events() if e.get("k") == "call" and callee_short(e) == "insert" and P(e.get("recv")) == "this->thread_map_"]
+        ers = [(b, i, e) for b, i, e in fn.all_events() if e.get("k") == "call" and callee_short(e) == "erase" and P(e.get("recv")) == "this->thread_map_"]
+        if not ins and not ers:
+            continue
+        seen16.add(key16)
+        ff16 = FactFlow(fn)
+
+        def edge_kind(blk, lab, fn=fn):
+            """'ins' / 'ers' if taking this edge means the insert / erase tested in blk's condition succeeded"""
+            if blk.cond is None or lab not in ("true", "false"):
+                return None
+            txt = cond_atoms(blk.cond)[0]
+            want = lab == "true"
+            if "this->thread_map_.erase(" in txt:
+                from engine.core import subexprs as _sx16
+                calls = _sx16(blk.cond, lambda y: isinstance(y, dict) and y.get("k") == "call" and callee_short(y) == "erase")
+                try:
+                    v1 = bool(_et16(blk.cond, {T(calls[0]): 1}))
+                    v0 = bool(_et16(blk.cond, {T(calls[0]): 0}))
+                except (_U16, IndexError):
+                    return None
+                if v1 != v0 and v1 == want:
+                    return "ers"
+                return None
+            if _df16(fn, blk.cond, lambda t: "this->thread_map_.insert(" in t) and ".second" in txt:
+                a, pos = cond_atoms(blk.cond)
+                if (pos == want):
+                    return "ins"
+            return None
+        arm = lambda blk, lab: edge_kind(blk, lab)
+
+        def discharge(ev):
+            if inc_of(ev, "this->thread_map_count_", "++"):
+                return "ins"
+            if inc_of(ev, "this->thread_map_count_", "--"):
+                return "ers"
+            return None
+        armed = [(bid, lab) for bid, blk in fn.blocks.items() for lab in ("true", "false") if edge_kind(blk, lab)]
+        probs = edge_obligations(fn, arm, discharge) if armed else []
+        n16 += 1
+        if probs:
+            rep.bad("C01.R16", fn, fn.loc, "map-count-pairing", "%s: a successful thread_map_ %s is not followed by the matching update of thread_map_count_ on every path (%s)"
+                    % (fn.qname.rsplit("::", 1)[-1], "insert" if probs[0][0] == "ins" else "erase", probs[:2]))
+        elif armed:
+            rep.ok("C01.R16", fn, "every successful thread_map_ insert/erase is followed by the matching thread_map_count_ update (%d guarded sites)" % len(armed))
+        # the other direction: the counter moves only with the map
+        for b, i, e in fn.all_events():
+            d = discharge(e)
+            if d is None:
+                continue
+            fb = ff16.before.get((b, i)) or frozenset()
+            if d == "ers":
+                under = any(("this->thread_map_.erase(" in a) for a, t in fb)
+                ok_dir = False
+                for a, t in fb:
+                    if "this->thread_map_.erase(" in a:
+                        m_ = re.search(r"(==|!=)\s*0|0\s*(==|!=)", a)
+                        succ = (t and "!=" in a) or ((not t) and "==" in a) or (t and m_ is None)
+                        ok_dir = ok_dir or succ
+                plain = any(x.get("k") == "call" and callee_short(x) == "erase" and P(x.get("recv")) == "this->thread_map_" for x in fn.blocks[b].events[:i]) and not under
+                if ok_dir or plain or precedes_on_all_paths(fn, lambda x: x.get("k") == "call" and callee_short(x) == "erase" and P(x.get("recv")) == "this->thread_map_", (b, i)) and not under:
+                    rep.ok("C01.R16", fn, "--thread_map_count_ at %s only after an erase that removed the entry" % loc_of(e))
+                else:
+                    rep.bad("C01.R16", fn, loc_of(e), "count-without-erase", "%s decrements thread_map_count_ on a path where thread_map_.erase did not remove an entry (facts %s): the "
+                            "counter drifts below the number of live thread objects" % (fn.qname.rsplit("::", 1)[-1], sorted(fb)[:4]))
+            else:
+                if precedes_on_all_paths(fn, lambda x: x.get("k") == "call" and callee_short(x) == "insert" and P(x.get("recv")) == "this->thread_map_", (b, i)):
+                    rep.ok("C01.R16", fn, "++thread_map_count_ at %s only after the insert" % loc_of(e))
+                else:
+                    rep.bad("C01.R16", fn, loc_of(e), "count-without-insert", "%s increments thread_map_count_ without a preceding thread_map_.insert" % fn.qname.rsplit("::", 1)[-1])
+    if n16 < 3:
+        raise AnalysisBroken("C01.R16: only %d thread_queue functions with thread_map_ insert/erase found" % n16)
+    for fn in [f for f in tqs if f.qname.endswith("::add_new")][:1]:
+        sch = [(b, i, e) for b, i, e in fn.all_events() if e.get("k") == "call" and callee_short(e) == "schedule_thread"]
+        ins = [(b, i, e) for b, i, e in fn.all_events() if e.get("k") == "call" and callee_short(e) == "insert" and P(e.get("recv")) == "this->thread_map_"]
+        cto = lambda x: x.get("k") == "call" and callee_short(x) == "create_thread_object"
+        if not sch:
+            rep.bad("C01.R16", fn, fn.loc, "converted-not-queued", "add_new converts staged tasks into thread objects but never queues them (no schedule_thread): their bodies are never entered")
+        elif ins and all(always_followed_by(fn, (b, i), lambda x: x.get("k") in ("call",) and callee_short(x) == "schedule_thread",
+                                          stop_pred=lambda x: x.get("k") in ("throw",) or (x.get("k") == "call" and callee_short(x) in ("throw_exception", "throws_if"))) == [] for b, i, e in ins):
+            rep.ok("C01.R16", fn, "every inserted thread is queued with schedule_thread (the failed-insert path throws)")
+        else:
+            rep.bad("C01.R16", fn, loc_of(ins[0][2]) if ins else fn.loc, "converted-not-queued", "add_new: a path from thread_map_.insert reaches the next iteration / the exit without schedule_thread")
+        if ins and all(precedes_on_all_paths(fn, cto, (b, i), reset_pred=lambda x: x.get("k") == "call" and callee_short(x) == "pop" and "new_tasks_" in P(x.get("recv"))) for b, i, e in ins):
+            rep.ok("C01.R16", fn, "the thread object is created before it is inserted into the map")
+        else:
+            rep.bad("C01.R16", fn, loc_of(ins[0][2]) if ins else fn.loc, "insert-before-create", "add_new inserts a thread id into the map before create_thread_object produced it (an empty id is inserted and scheduled)")
+
+    # R16 (continued): create before insert everywhere; destroy_thread hands the object to the terminated list; cleanup reports 'nothing left' truthfully
+    seen16b = set()
+    for fn in tqs:
+        if fn.qname in seen16b:
+            continue
+        ins = [(b, i, e) for b, i, e in fn.all_events() if e.get("k") == "call" and callee_short(e) == "insert" and P(e.get("recv")) == "this->thread_map_"]
+        if not ins or fn.qname.endswith("::add_new"):
+            continue
+        seen16b.add(fn.qname)
+        if all(precedes_on_all_paths(fn, lambda x: x.get("k") == "call" and callee_short(x) == "create_thread_object", (b, i)) for b, i, e in ins):
+            rep.ok("C01.R16", fn, "the thread object is created before it is inserted into the map")
+        else:
+            rep.bad("C01.R16", fn, loc_of(ins[0][2]), "insert-before-create", "%s inserts a thread id into the map before create_thread_object produced it" % fn.qname.rsplit("::", 1)[-1])
+    for fn in [f for f in tqs if f.qname.endswith("::destroy_thread")][:1]:
+        if not fn.params:
+            raise AnalysisBroken("thread_queue::destroy_thread: parameter not found")
+        tp = fn.params[0]["name"]
+        ps = [(b, i, e) for b, i, e in fn.all_events() if e.get("k") == "call" and callee_short(e) == "push" and P(e.get("recv")) == "this->terminated_items_"]
+        cf = CountFlow(fn, lambda e, pos: 1 if (e.get("k") == "call" and callee_short(e) == "push" and P(e.get("recv")) == "this->terminated_items_") else 0)
+        incs = [e for _, _, e in fn.all_events() if inc_of(e, "this->terminated_items_count_", "++")]
+        if ps and cf.exits == frozenset([1]) and all(tp in T(e["args"][0]) for _, _, e in ps) and incs:
+            rep.ok("C01.R16", fn, "destroy_thread hands the terminated object to terminated_items_ exactly once and counts it")
+        else:
+            rep.bad("C01.R16", fn, fn.loc, "terminated-not-collected", "destroy_thread does not put the terminated thread object on terminated_items_ exactly once and count it (pushes on exit "
+                    "paths: %s, counted: %s): the object is never erased from the thread map, thread_map_count_ never returns to zero (workers cannot exit, pika::wait() hangs) / "
+                    "it is recycled twice" % (sorted(cf.exits), bool(incs)))
+    from engine.kinds import guarded_returns as _gr16
+    for fn in [f for f in tqs if f.qname.endswith("::cleanup_terminated_locked")][:1]:
+        nr = 0
+        for leaf, fb, ev in _gr16(fn):
+            v = strip(leaf)
+            nr += 1
+            if v.get("k") == "lit":
+                zero = any("terminated_items_count_" in a and (("== 0" in a or "0 ==" in a) and t or ("!= 0" in a or "0 !=" in a) and not t) for a, t in fb)
+                if v.get("v") is True and zero:
+                    rep.ok("C01.R16", fn, "returns true at %s only with no terminated object left" % loc_of(ev))
+                elif v.get("v") is True:
+                    rep.bad("C01.R16", fn, loc_of(ev), "cleanup-result", "cleanup_terminated_locked reports 'nothing left' without having seen terminated_items_count_ == 0")
+                else:
+                    if zero:
+                        rep.bad("C01.R16", fn, loc_of(ev), "cleanup-result", "cleanup_terminated_locked reports 'objects left' although terminated_items_count_ == 0: an idle worker never "
+                                "sees the clean state it needs to exit or go to sleep")
+            else:
+                from engine.core import subexprs as _sxc
+                loads = _sxc(leaf, lambda y: isinstance(y, dict) and y.get("k") == "call" and "terminated_items_count_" in P(y.get("recv") or {}))
+                okc = False
+                if loads:
+                    try:
+                        okc = bool(_et16(leaf, {T(loads[0]): 0})) is True and bool(_et16(leaf, {T(loads[0]): 3})) is False
+                    except _U16:
+                        okc = False
+                if okc:
+                    rep.ok("C01.R16", fn, "returns terminated_items_count_ == 0")
+                else:
+                    rep.bad("C01.R16", fn, loc_of(ev), "cleanup-result", "cleanup_terminated_locked returns %s, which is not 'no terminated object is left' (true exactly when "
+                            "terminated_items_count_ == 0): workers exit/sleep with objects still to be erased, or never do" % T(leaf))
+        if nr < 2:
+            raise AnalysisBroken("cleanup_terminated_locked: returns not found")
 
     # ---- R14: staged tasks are converted even at the thread-object cap
     rep.rule("C01.R14", "K7 (evaluated): thread_queue::add_new_always converts staged tasks (reaches add_new) whenever the thread map has room, and also "
